@@ -588,7 +588,8 @@ def _r3(ctx):
 def _r4(ctx):
     prog = ctx.prog
     ctx.rule("R-C11-4", floor=1, what="damage is degree 1 in the collective's cycle counts")
-    f = prog.func("pylife.strength.fatigue:Fatigue.damage")
+    from ..inline import inlined
+    f = inlined(prog, prog.func("pylife.strength.fatigue:Fatigue.damage"))     # private helpers (module level too) expanded
     coll = [p for p in f.params if p != "self"][0]
     cfg = CFG(f.node)
     ret = [s for s in f.node.body if isinstance(s, ast.Return)][-1]
